@@ -8,5 +8,6 @@ namespace F1.Props.FactsC12
 
 theorem fact_api_withRegularDistribution : F1.Generated.skel_api_withRegularDistribution = F1.Expected.skel_api_withRegularDistribution := by rfl
 theorem fact_api_withRandomDistribution : F1.Generated.skel_api_withRandomDistribution = F1.Expected.skel_api_withRandomDistribution := by rfl
+theorem fact_api_NewDistribution : F1.Generated.skel_api_NewDistribution = F1.Expected.skel_api_NewDistribution := by rfl
 
 end F1.Props.FactsC12
